@@ -16,7 +16,8 @@ from vlib import worldops
 ID = 'C15'
 LEVEL = 'exploration'
 BUDGET = {'quick': 1200, 'thorough': 4000}
-RULE = ('Component types include two sibling subclasses of desper.Controller, each decorated with ONE further event and defining only that callback; which callbacks a type is owed is written down in the fixtures (DECLARED_EVENTS), never read back from __events__. '
+RULE = ('Explicit identifiers include 1, 2, 3 (the values the automatic numbering hands out), listed before the first entity without identifier. Resource handles return a FRESH object per load. Processor types include two types derived from another listed type. '
+        'Component types include two sibling subclasses of desper.Controller, each decorated with ONE further event and defining only that callback; which callbacks a type is owed is written down in the fixtures (DECLARED_EVENTS), never read back from __events__. '
         'Hypothesis-generated world descriptions: 0-4 processors and 0-5 entities with 0-4 components, types from '
         'an importable fixture module (handler and plain components recording *args/**kwargs), optional ids (str, '
         'negative int, int >= 10**6), args/kwargs from a pool of JSON values (nested containers, numbers, '
@@ -54,7 +55,7 @@ OBJ_REFS = ['verif_fixtures.CONST_A', 'verif_fixtures.CONST_LIST', 'verif_fixtur
 RES_PATHS = ['r1', 'dir.r2', 'dir.sub.r3', 'dir.r4',
              # keys may contain any character but the delimiter - a closing brace too (the reference ends at the LAST one)
              'dir.r2}x', 'r1}']
-IDS = [None, None, 'hero', 'id with space', -1, -77, 10 ** 6, 10 ** 6 + 5]
+IDS = [None, None, 'hero', 'id with space', -1, -77, 10 ** 6, 10 ** 6 + 5, 1, 2, 3, 2]
 WORLD_KEYS = ['w', 'worlds/w', 'worlds/lvl/w']
 KWNAMES = ['x', 'y', 'name']
 
@@ -200,10 +201,19 @@ def _run(case, tmp):
         expected_procs.append(e)
     expected_entities = []
     used_ids = set()
+    unnamed_listed = False
     for ei, ent in enumerate(all_entities):
         eid = IDS[ent['id']]
         if eid is not None and eid in used_ids:
             eid = None
+        if eid in (1, 2, 3) and unnamed_listed:
+            # (small positive identifiers - the ones the automatic numbering would hand out - are only listed before
+            # the first entity without an identifier: listed later they could name an entity that exists already)
+            eid = None
+        if eid is None:
+            unnamed_listed = True
+        elif eid in (1, 2, 3):
+            facts['explicit_id_in_the_automatic_range'] += 1
         if eid is not None:
             used_ids.add(eid)
         comps, exp = [], []
@@ -349,10 +359,15 @@ def _run(case, tmp):
             _d, e = build_item(it, 'verif_fixtures.' + tname, getattr(fx, tname), render, as_file, 'p%d' % len(eprocs))
             eprocs.append(e)
         used = set()
+        unnamed = False
         for ei, ent in enumerate(all_entities):
             eid = IDS[ent['id']]
             if eid is not None and eid in used:
                 eid = None
+            if eid in (1, 2, 3) and unnamed:
+                eid = None
+            if eid is None:
+                unnamed = True
             if eid is not None:
                 used.add(eid)
             exp, seen_c = [], set()
